@@ -55,7 +55,7 @@ template <class X> void norm_run(Ctx& c, const Str& s, const char* gen, uint64_t
     else { masks.push_back(63); masks.push_back(8); masks.push_back((unsigned)-1); for (int i = 0; i < 5; i++) masks.push_back(c.rng.below(64) | (c.rng.chance(1, 8) ? 0xFFFFFFC0u : 0)); }
     for (unsigned mask : masks) {
         for (int owned = 0; owned < 2; owned++) {
-            UriBox<X> b; Ledger* l = (mask & 1) ^ (unsigned)owned ? &led : nullptr;
+            UriBox<X> b; Ledger* l = ((mask == (unsigned)-1 ? (unsigned)(c.case_index & 1) : (mask & 1)) ^ (unsigned)owned) ? &led : nullptr;    // mask ~0 without manager goes through the plain uriNormalizeSyntax
             if (b.parse(s, l) != URI_SUCCESS) { c.count("parse_failed"); return; }
             if (!b.faithful()) { c.count("skipped_unfaithful_parse"); return; }
             if (owned && b.make_owner() != URI_SUCCESS) { c.count("makeowner_failed"); continue; }
